@@ -638,6 +638,26 @@ def prog_sql(seed: int, n_ops: int = 8, *, sorts: float = 1.0, selfjoin: float =
         p1 = g.apply(l1, ["proj", *sorted(g.cols[l1] - {hide1})], g.cols[l1] - {hide1})
         p2 = g.apply(l2, ["proj", *sorted(g.cols[l2] - {hide2})], g.cols[l2] - {hide2})
         observed.append(g.join(p1, p2, None) if rng.random() < 0.5 else g.join(p2, p1, None))
+    if rng.random() < 0.15:
+        # scenario: a UNION that is sorted (and usually sliced), then a projection that drops a column
+        # the sort needs (the engine must nest the UNION; the slice must be applied exactly once)
+        cs = sorted(rng.sample(BASE_COLS, rng.choice([2, 3])))
+        u1 = g.leaf("e0", cols=cs, nrows=rng.choice([2, 3, 4]))
+        u2 = g.leaf("e0", cols=cs, nrows=rng.choice([1, 2, 3]))
+        ch = g.chain(u1, u2)
+        key = rng.choice(cs)
+        terms = [["term", ["ref", key], rng.choice(["asc", "desc"])]]
+        if rng.random() < 0.4:
+            terms.append(["term", ["ref", rng.choice(cs)], "asc"])
+        cur = g.apply(ch, ["sort", *terms], g.cols[ch])
+        if rng.random() < 0.8:
+            a = rng.choice([0, 0, 1, 2])
+            cur = g.apply(cur, ["slice", a, rng.choice([a + 1, a + 2, a + 3, "-"]), "-"], g.cols[cur])
+        if rng.random() < 0.25:
+            cur = g.apply(cur, ["dedup"], g.cols[cur])
+        keep = [c for c in cs if c != key]
+        observed.append(cur)
+        observed.append(g.apply(cur, ["proj", *keep], frozenset(keep)))
     if rng.random() < 0.12:
         # scenario: a zero-column "guard" relation (project onto nothing, deduplicate) joined to a table
         base = g.leaf("e0", nrows=rng.choice([0, 0, 1, 2]), bounds=rng.choice(["loose", "unbounded", "zero-min"]))
@@ -803,6 +823,24 @@ def prog_multi(seed: int, n_ops: int = 8, *, three: float = 0.3, prefs: float = 
             plain = g.apply(cur, op, nc)
             pr = g.apply(cur, op, nc, g.opts(pref, True, rng.random() < 0.5, False))
             observed += [plain, pr]
+    elif sc < 0.72:
+        # scenario: the join key of the target is CALCULATED (or projected away) downstream of a
+        # transfer; the join is preferred in the source engine, so back-tracking must not carry it
+        # upstream of the operation that creates (or drops) the key
+        e_src, e_mid = ("e0", "e1") if rng.random() < 0.7 else ("e1", "e0")
+        base_cols = sorted(rng.sample(["a", "b", "c", "d"], rng.choice([1, 2])))
+        src = g.leaf(e_src, cols=base_cols)
+        cur = g.transfer(src, e_mid)
+        keytag = "y"
+        cur = g.apply(cur, ["calc", keytag, ["fn", "add", "*", ["ref", base_cols[0]], ["lit", rng.choice([0, 1])]]],
+                      g.cols[cur] | {keytag})
+        if rng.random() < 0.3:
+            op, nc = g.rand_op(g.cols[cur], allow=("sel", "sort"))
+            cur = g.apply(cur, op, nc)
+        other_cols = sorted({keytag} | set(rng.sample(["x", "z", "c"], rng.choice([0, 1]))))
+        other = g.leaf(e_src, cols=other_cols)
+        for bt, tr in ((True, True), (True, False)):
+            observed.append(g.join(cur, other, None, bt=bt, tr=tr))
     for _ in range(n_ops):
         k = rng.random()
         t = g.pick()
@@ -979,8 +1017,22 @@ def prog_illformed(seed: int, n_ops: int = 5) -> G:
     cmd = None
     if kind == "missing-column":
         m = rng.choice(missing)
-        sub = rng.choice(["calc", "sel", "sort", "proj", "join"])
-        if sub == "calc":
+        sub = rng.choice(["calc", "sel", "sort", "proj", "join", "joinon", "joinon"])
+        jo = None
+        if sub == "joinon":
+            # explicit common columns that the FIXED operand has and the target lacks
+            cands = [(u, k) for u in pool for k in sorted(g.cols[u] - cols) if KEY[k]
+                     and not (g.cols[u] & cols & NONKEY)]
+            if cands:
+                u, kcol = rng.choice(cands)
+                common = sorted({kcol} | set(rng.sample(sorted(k2 for k2 in (g.cols[u] & cols) if KEY[k2]),
+                                                        k=min(1, len([k2 for k2 in (g.cols[u] & cols) if KEY[k2]])))))
+                jo = ["joinon", r, t, u, common, ["plit", "T"], rng.choice(["T", "F"]), rng.choice(["T", "F"])]
+            else:
+                sub = "sel"
+        if jo is not None:
+            cmd = jo
+        elif sub == "calc":
             tag = rng.choice([x for x in NEW_TAGS + BASE_COLS if x not in cols and x != m] or ["z"])
             cmd = ["apply", r, t, ["calc", tag, ["fn", "add", "*", ["ref", m], ["lit", 1]]], anyopts]
         elif sub == "sel":
@@ -1079,6 +1131,45 @@ def prog_conform(seed: int, n_ops: int = 7) -> G:
         g.leaves_of[r] = g.leaves_of[leaf]
         raws.append(r)
     api: list[str] = [x for x in g.cols if x not in raws]
+
+    def raw_unary(op, t, nc):
+        r = g.fresh()
+        g.emit(["rawu", r, op, t])
+        g.cols[r] = frozenset(nc)
+        g.eng[r] = "e0"
+        g.leaves_of[r] = g.leaves_of[t]
+        if t in g.has_chain:
+            g.has_chain.add(r)
+        raws.append(r)
+        return r
+
+    if rng.random() < 0.2:
+        # scenario: raw  proj(slice(sort(chain)))  where the projection drops a sort column
+        cs = sorted(rng.sample(BASE_COLS, rng.choice([2, 3])))
+        parts = []
+        for _ in range(2):
+            leaf = g.leaf("e0", cols=cs, nrows=rng.choice([2, 3, 4]))
+            r = g.fresh()
+            g.emit(["unwrap", r, leaf])
+            g.cols[r] = g.cols[leaf]
+            g.eng[r] = "e0"
+            g.leaves_of[r] = g.leaves_of[leaf]
+            raws.append(r)
+            parts.append(r)
+        ch = g.fresh()
+        g.emit(["rawchain", ch, parts[0], parts[1]])
+        g.cols[ch] = g.cols[parts[0]]
+        g.eng[ch] = "e0"
+        g.leaves_of[ch] = g.leaves_of[parts[0]] | g.leaves_of[parts[1]]
+        g.has_chain.add(ch)
+        raws.append(ch)
+        key = rng.choice(cs)
+        cur = raw_unary(["sort", ["term", ["ref", key], rng.choice(["asc", "desc"])]], ch, g.cols[ch])
+        if rng.random() < 0.85:
+            a = rng.choice([0, 0, 1, 2])
+            cur = raw_unary(["slice", a, rng.choice([a + 1, a + 2, a + 3, "-"]), "-"], cur, g.cols[cur])
+        keep = [c for c in cs if c != key]
+        raw_unary(["proj", *keep], cur, keep)
     for _ in range(n_ops):
         k = rng.random()
         if k < 0.6:
